@@ -1,9 +1,104 @@
 import RefurbVerif.Wire.Basic
+import RefurbVerif.Model.Pipeline
+import RefurbVerif.Generated.Handlers
+import RefurbVerif.Generated.LifecycleShape
 open Lean
 
 namespace RefurbVerif.Wire
+open RefurbVerif RefurbVerif.Main
 
-/-- driver verbs of this group (filled in by the property that owns it) -/
-def handlePipeline (_verb : String) (_j : Json) : Option Json := none
+def plExc (s : String) : Option Exc :=
+  match s with
+  | "valueError" => some .valueError
+  | "typeError" => some .typeError
+  | "systemExit" => some .systemExit
+  | "compileError" => some .compileError
+  | "recursionError" => some .recursionError
+  | "notImplementedError" => some .notImplementedError
+  | "unicodeDecodeError" => some .unicodeDecodeError
+  | "importError" => some .importError
+  | "osError" => some .osError
+  | "keyError" => some .keyError
+  | "attributeError" => some .attributeError
+  | "assertionError" => some .assertionError
+  | "unicodeEncodeError" => some .unicodeEncodeError
+  | _ => none
+
+def plStep (s : String) : Option Step :=
+  match s with
+  | "loadSettings" => some .loadSettings
+  | "early" => some .early
+  | "explain" => some .explain
+  | "processOptions" => some .processOptions
+  | "build" => some .build
+  | "loadChecks" => some .loadChecks
+  | "visit" => some .visit
+  | "timing" => some .timing
+  | "readSource" => some .readSource
+  | "format" => some .format
+  | "print" => some .print
+  | _ => none
+
+def plEarly (s : String) : Early :=
+  match s with
+  | "help" => .help
+  | "version" => .version
+  | "gen" => .gen
+  | "explain" => .explain
+  | _ => .none
+
+def plFile (j : Json) : FileW :=
+  { pre := nat j "pre", post := nat j "post", rank := nat j "rank",
+    visitFault := (optStr j "visit").bind plExc, readFault := (optStr j "read").bind plExc }
+
+def plFaults (j : Json) : List (Step × Exc) :=
+  (arr j "fault").filterMap (fun p =>
+    match p with
+    | .arr #[.str s, .str e] => (plStep s).bind (fun s' => (plExc e).map (fun e' => (s', e')))
+    | _ => none)
+
+def plWorld (j : Json) : World :=
+  { early := plEarly (str j "early"), debug := bool j "debug", quiet := bool j "quiet", timingStats := bool j "timing",
+    fault := plFaults j, poptsErr := nat j "poptsErr", poptsOut := nat j "poptsOut",
+    compileMsgs := (arr j "compile").map (fun b => (b.getBool?).toOption.getD false),
+    files := (arr j "files").map plFile }
+
+def plLine : Line → String
+  | .diag i => s!"diag:{i}"
+  | .refurbLine => "refurb"
+  | .mypyLine => "mypy"
+  | .bare => "bare"
+  | .dump i => s!"dump:{i}"
+  | .hint => "hint"
+  | .info => "info"
+
+def plOutcome : Outcome → Json
+  | .traceback t => Json.mkObj [("r", "traceback"), ("temp", t)]
+  | .clean c out t => Json.mkObj [("r", "clean"), ("exit", c), ("out", toJson (out.map plLine)), ("temp", t)]
+
+def plCell : Cell → Json
+  | .uncaught => Json.mkObj [("k", "uncaught")]
+  | .exits m c k => Json.mkObj [("k", "exits"), ("msg", m), ("code", c), ("keeps", k)]
+  | .lines => Json.mkObj [("k", "lines")]
+  | .resume a b => Json.mkObj [("k", "resume"), ("keep", a), ("cont", b)]
+
+/-- driver verbs of this group.
+    `pipeline`: a world (JSON) → what `main()` ends with, under the regenerated table (`"table": "nesting"` = the
+    hand-written reading instead) and the regenerated shape of the unlink (`"fin"` overrides it);
+    `pipelineCell`: one cell of either table. -/
+def handlePipeline (verb : String) (j : Json) : Option Json :=
+  match verb with
+  | "pipeline" =>
+    let h : Table := if str j "table" == "nesting" then nesting else Generated.cells
+    let fin := match j.getObjVal? "fin" with
+      | .ok (.bool b) => b
+      | _ => Generated.unlinkInFinally
+    some (plOutcome (runMain h fin (plWorld j)))
+  | "pipelineCell" =>
+    match plStep (str j "step"), plExc (str j "exc") with
+    | some s, some e =>
+      some (Json.mkObj [("cells", plCell (Generated.cells s e)), ("nesting", plCell (nesting s e))])
+    | _, _ => some (Json.mkObj [("error", "unknown step or exception kind")])
+  | _ => none
 
 end RefurbVerif.Wire
